@@ -230,7 +230,7 @@ def stmt_fn(var, depth, early, style):
 
 
 def run_seq(case):
-    from pedantic.decorators.fn_deco_context_manager import safe_contextmanager, safe_async_contextmanager
+    from pedantic.decorators import safe_contextmanager, safe_async_contextmanager   # the public names
     var = case['var']
     deco = safe_contextmanager if var == 'sync' else safe_async_contextmanager
     ctx = Ctx()
@@ -310,7 +310,7 @@ def make_callable(fkind, form):
 
 
 def run_deco(case):
-    from pedantic.decorators.fn_deco_context_manager import safe_contextmanager, safe_async_contextmanager
+    from pedantic.decorators import safe_contextmanager, safe_async_contextmanager   # the public names
     deco = safe_contextmanager if case['var'] == 'sync' else safe_async_contextmanager
     f = make_callable(case['fkind'], case['form'])
     try:
@@ -321,7 +321,7 @@ def run_deco(case):
 
 
 def run_shape(case):
-    from pedantic.decorators.fn_deco_context_manager import safe_contextmanager, safe_async_contextmanager
+    from pedantic.decorators import safe_contextmanager, safe_async_contextmanager   # the public names
     if case['var'] == 'sync':
         def some_generator(*a, **k):
             """documentation of the decorated generator"""
